@@ -244,13 +244,17 @@ class Failing(object):
     """slave context whose chosen operation raises"""
     zero_mode = True
 
-    def __init__(self, which):
+    def __init__(self, which, exc='RuntimeError'):
         self.which = which
+        self.exc = exc
         self.blk = dict((a, 0) for a in range(10))
 
     def _f(self, name):
         if name == self.which:
-            raise RuntimeError('datastore failure injected in ' + name)
+            if self.exc in ('NotImplementedException', 'ParameterException', 'ModbusIOException'):
+                import pymodbus.exceptions as pe          # what an unfinished or custom datastore raises
+                raise getattr(pe, self.exc)('datastore failure injected in ' + name)
+            raise dict(RuntimeError=RuntimeError, KeyError=KeyError, IOError=IOError)[self.exc]('datastore failure injected in ' + name)
 
     def validate(self, fx, address, count=1):
         self._f('validate')
@@ -266,7 +270,10 @@ class Failing(object):
             self.blk[address + i] = v
 
 
-def frontend_execute(front, ctx, request):
+EXCS = ('RuntimeError', 'NotImplementedException', 'ParameterException', 'ModbusIOException', 'KeyError', 'IOError')
+
+
+def frontend_execute(front, ctx, request, ignore=False):
     """drive the execute wrapper of one front-end with a stub server; returns sent messages"""
     sent = []
     server_ctx = {1: ctx}
@@ -283,7 +290,7 @@ def frontend_execute(front, ctx, request):
                 raise NoSuchSlaveException(k)
             return dict.__getitem__(self, k)
     sc = SC(server_ctx)
-    ns = types.SimpleNamespace(context=sc, store=sc, broadcast_enable=False, ignore_missing_slaves=False,
+    ns = types.SimpleNamespace(context=sc, store=sc, broadcast_enable=False, ignore_missing_slaves=ignore,
                                control=types.SimpleNamespace(ListenOnly=False, Counter=types.SimpleNamespace(BusMessage=0)))
     if front == 'sync':
         from pymodbus.server.sync import ModbusConnectedRequestHandler as H
@@ -320,24 +327,29 @@ def shard_failure(args):
             if which not in uses:
                 continue
             raw = pdu.encode(m)
-            req = framers.decoder('req').decode(raw)
-            req.unit_id = 1
-            req.transaction_id = 0x55
-            acc.inc('transitions')
-            wit = dict(front=front, raises=which, request=raw.hex())
-            try:
-                sent = frontend_execute(front, Failing(which), req)
-            except Exception as e:   # noqa
-                acc.violation('C05/fc%02d/ex04/raise:%s/%s' % (m['fc'], type(e).__name__, front), wit,
-                              'the execute wrapper let %r escape' % e, front)
-                continue
-            got = [bind.pdu_bytes(x) for x in sent]
-            if got == [bytes([m['fc'] | 0x80, 4])] and (sent[0].transaction_id != 0x55 or sent[0].unit_id != 1):
-                acc.violation('C05/fc%02d/ex04/ids-not-echoed/%s' % (m['fc'], front), wit,
-                              'exception 04 sent with transaction id %r unit %r (request 0x55 / 1)' % (sent[0].transaction_id, sent[0].unit_id), front)
-            if got != [bytes([m['fc'] | 0x80, 4])]:
-                acc.violation('C05/fc%02d/ex04/%s/%s' % (m['fc'], 'no-response' if not got else 'other', front), wit,
-                              'datastore %s raised; responses %r' % (which, [g.hex() for g in got]), front)
+            for exc in EXCS:
+              for ignore in (False, True):
+                req = framers.decoder('req').decode(raw)
+                req.unit_id = 1
+                req.transaction_id = 0x55
+                acc.inc('transitions')
+                wit = dict(front=front, raises=which, request=raw.hex())
+                if exc != 'RuntimeError' or ignore:
+                    wit.update(exc=exc, ignore=ignore)
+                tag = '' if exc == 'RuntimeError' and not ignore else '/%s%s' % (exc, '+ignore-missing' if ignore else '')
+                try:
+                    sent = frontend_execute(front, Failing(which, exc), req, ignore)
+                except Exception as e:   # noqa
+                    acc.violation('C05/fc%02d/ex04/raise:%s/%s%s' % (m['fc'], type(e).__name__, front, tag), wit,
+                                  'the execute wrapper let %r escape' % e, front)
+                    continue
+                got = [bind.pdu_bytes(x) for x in sent]
+                if got == [bytes([m['fc'] | 0x80, 4])] and (sent[0].transaction_id != 0x55 or sent[0].unit_id != 1):
+                    acc.violation('C05/fc%02d/ex04/ids-not-echoed/%s%s' % (m['fc'], front, tag), wit,
+                                  'exception 04 sent with transaction id %r unit %r (request 0x55 / 1)' % (sent[0].transaction_id, sent[0].unit_id), front)
+                if got != [bytes([m['fc'] | 0x80, 4])]:
+                    acc.violation('C05/fc%02d/ex04/%s/%s%s' % (m['fc'], 'no-response' if not got else 'other', front, tag), wit,
+                                  'datastore %s raised %s; responses %r' % (which, exc, [g.hex() for g in got]), front)
     acc.add('nontrivial', 'failure/' + front)
     return acc
 
@@ -378,7 +390,7 @@ def replay(w):
         req = framers.decoder('req').decode(raw)
         req.unit_id, req.transaction_id = 1, 0x55
         try:
-            sent = [bind.pdu_bytes(x).hex() for x in frontend_execute(w['front'], Failing(w['raises']), req)]
+            sent = [bind.pdu_bytes(x).hex() for x in frontend_execute(w['front'], Failing(w['raises'], w.get('exc', 'RuntimeError')), req, w.get('ignore', False))]
         except Exception as e:   # noqa
             return True, 'escaped: %r' % e
         return sent != [bytes([raw[0] | 0x80, 4]).hex()], 'responses %r' % sent
